@@ -5,6 +5,15 @@ HERE = os.path.dirname(os.path.abspath(__file__))
 BASELINE = "cd /repo && /venv/bin/python -m pytest -ra -q -p no:cacheprovider --timeout=900 --continue-on-collection-errors"
 
 CLAIMED = {
+    'C15': dict(
+        design='4.15',
+        text='Deductive proof of the validation kernel: matrix.assemble_csr returns normally only if exactly the triple it was given is handed to the backend and that triple '
+             'is well-formed CSR (row pointer starts at 0, monotone, ends at nnz; every column index in [0,ncols); column indices strictly increasing within every row), and it '
+             'raises only for input that is not well-formed. Arrays of arbitrary length (quantified obligations over z3 arrays), no bound.',
+        note='Trusted: pyvc executor; numpy externals as axioms (elementwise comparison, basic slices as views, out= write-through, integer-array store in Skolem-witness form, .all()); '
+             'lemmas L-MONO and L-ROW; int64 as mathematical integers. Counterexamples for array obligations are searched on a bounded instance (lengths <= 3) and replayed natively. '
+             'Backends (scipy/MKL), arithmetic, export and pickling are outside.',
+        technique='contract-based deductive verification: ast->z3 VC generation (quantified array obligations) on the real function bodies, sidecar contracts'),
     'C01': dict(
         design='4.1',
         text='Deductive proof of the kernel only: for each range-guarded integer rewrite (Mod/Minimum/Maximum/InRange/NormDim._simplified, Power._simplified p in {0,1,2}, '
@@ -28,7 +37,7 @@ NOT_APPLICABLE = {
     'C02': 'whole-DAG faithful translation into generated numpy programs: no function-level postcondition carries it; would need a denotational semantics of ~150 node classes and of the generated code (DESIGN 4.2)',
     'C03': 'history/non-interference property of a program that exists only as a generated string; no per-function contract expresses it (DESIGN 4.3)',
 }
-PENDING = ['C04', 'C05', 'C07', 'C08', 'C09', 'C10', 'C11', 'C12', 'C13', 'C14', 'C15', 'C16', 'C17', 'C18', 'C19', 'C20']
+PENDING = ['C04', 'C05', 'C07', 'C08', 'C09', 'C10', 'C11', 'C12', 'C13', 'C14', 'C16', 'C17', 'C18', 'C19', 'C20']
 
 
 def main():
